@@ -3,6 +3,14 @@
 # the evidence next to what the engine measured.
 
 PROPS = {
+    "C13": {
+        "groups": [
+            {"pkg": "server", "tags": "verif,test", "harness": "^verifH_C13_", "unwind": 4, "replay": "symbolic",
+             "replay_note": "lock state and critical-section interference are ghost state of the symbolic run; a native run cannot observe 'field read without the mutex' or place an operation into a gap without instrumenting the code"},
+        ],
+        "bounds": {"roots": "10 server operations from a state with one device, one peer server", "interference": "the real conflicting authorization (ban) placed in the gap of the impact-data job"},
+        "outside": ["the Go memory model below mutex granularity, the race detector on real workloads", "client-side concurrency (lock balance only, C11)", "production-only WattTime week job (dead code under the test tag used for these harnesses)"],
+    },
     "C12": {
         "groups": [
             {"pkg": "server", "tags": "verif,test", "harness": "^verifH_C12_", "unwind": 4},
